@@ -5,8 +5,10 @@
     hkdf.rs    hkdf_extract  "prk - The output buffer to fill with a `digest.output_bytes()` length pseudo random key."
                              `assert!(prk.len() == digest.output_bytes());`
                hkdf_expand   RFC 5869 §2.3 "L … (<= 255*HashLen)";  `n = n.checked_add(1).expect("HKDF size limit exceeded.");` (n: u8)
-                             "prk - The pseudorandom key of at least `digest.output_bytes()` octets." — NOT checked by the code
-                             (any length is accepted; see the report of unit `refusal`)
+                             "prk - The pseudorandom key of at least `digest.output_bytes()` octets." (RFC 5869 §2.3 "PRK  a
+                             pseudorandom key of at least HashLen octets"): `assert!(prk.len() >= digest.output_bytes());`
+                             (added by the repair of defect (m): before it any PRK length was accepted and a value returned —
+                             witness `hkdf_expand_old_short_prk`)
     pbkdf2.rs  pbkdf2        `assert!(c > 0);`   `idx = idx.checked_add(1).expect("PBKDF2 size limit exceeded.");` (idx: u32):
                              RFC 8018 §5.2 "If dkLen > (2^32 - 1) * hLen, output "derived key too long" and stop."
     scrypt.rs  ScryptParams::new   every constraint of RFC 7914 §2 / §6 within `usize` (theorem `scrypt_params_accepts_iff`)
@@ -23,8 +25,8 @@ set_option linter.unusedVariables false
 
 /-- `hkdf_extract(digest, salt, ikm, prk)`: the PRK buffer has exactly HashLen bytes -/
 def ValidHkdfExtract (hashLen prkLen : Nat) : Prop := prkLen = hashLen
-/-- `hkdf_expand(digest, prk, info, okm)`: L ≤ 255·HashLen -/
-def ValidHkdfExpand (hashLen okmLen : Nat) : Prop := okmLen ≤ 255 * hashLen
+/-- `hkdf_expand(digest, prk, info, okm)`: the PRK has at least HashLen bytes and L ≤ 255·HashLen -/
+def ValidHkdfExpand (hashLen prkLen okmLen : Nat) : Prop := hashLen ≤ prkLen ∧ okmLen ≤ 255 * hashLen
 /-- `pbkdf2(mac, salt, c, output)`: c ≥ 1 and dkLen ≤ (2^32 − 1)·hLen -/
 def ValidPbkdf2 (hLen c dkLen : Nat) : Prop := 0 < c ∧ dkLen ≤ (2 ^ 32 - 1) * hLen
 /-- `ScryptParams::new(log_n, r, p)`: RFC 7914 (N = 2^log_n > 1, N < 2^(128·r/8), p ≤ ((2^32−1)·32)/(128·r), r, p > 0)
@@ -36,7 +38,7 @@ def ValidScryptParams (log_n r p : Nat) : Prop :=
 def ValidScryptOut (dkLen : Nat) : Prop := 0 < dkLen ∧ dkLen ≤ (2 ^ 32 - 1) * 32
 
 instance (a b : Nat) : Decidable (ValidHkdfExtract a b) := by unfold ValidHkdfExtract; infer_instance
-instance (a b : Nat) : Decidable (ValidHkdfExpand a b) := by unfold ValidHkdfExpand; infer_instance
+instance (a b c : Nat) : Decidable (ValidHkdfExpand a b c) := by unfold ValidHkdfExpand; infer_instance
 instance (a b c : Nat) : Decidable (ValidPbkdf2 a b c) := by unfold ValidPbkdf2; infer_instance
 instance (a b c : Nat) : Decidable (ValidScryptParams a b c) := by unfold ValidScryptParams; infer_instance
 instance (a : Nat) : Decidable (ValidScryptOut a) := by unfold ValidScryptOut; infer_instance
@@ -63,19 +65,39 @@ theorem hkdf_expand_none_iff {γ : Type} (M : CtxModel γ) (H : Fn) (B L : Nat) 
     (hC : HkdfCorrect M H B L ok) (prk info : Bytes) (okmLen : Nat) (hk : prk.length ≤ B ∨ ok prk)
     (hok : ∀ x : Bytes, x.length ≤ L + info.length + 1 →
       ok (ikey H B prk ++ x) ∧ ok (okey H B prk ++ H (ikey H B prk ++ x))) :
-    hkdf_expand (legacyDigest M) (Legacy.new M) prk info okmLen = none ↔ ¬ ValidHkdfExpand L okmLen := by
+    hkdf_expand (legacyDigest M) (Legacy.new M) prk info okmLen = none ↔ ¬ ValidHkdfExpand L prk.length okmLen := by
   rw [hC.2 prk info okmLen hk hok, hkdf_expand_limit]
   unfold ValidHkdfExpand; omega
+
+/-- the same with the two refused length classes spelled out: a PRK shorter than HashLen, an output beyond 255·HashLen -/
+theorem hkdf_expand_none_iff_lengths {γ : Type} (M : CtxModel γ) (H : Fn) (B L : Nat) (ok : Bytes → Prop)
+    (hC : HkdfCorrect M H B L ok) (prk info : Bytes) (okmLen : Nat) (hk : prk.length ≤ B ∨ ok prk)
+    (hok : ∀ x : Bytes, x.length ≤ L + info.length + 1 →
+      ok (ikey H B prk ++ x) ∧ ok (okey H B prk ++ H (ikey H B prk ++ x))) :
+    hkdf_expand (legacyDigest M) (Legacy.new M) prk info okmLen = none ↔ (prk.length < L ∨ 255 * L < okmLen) := by
+  rw [hC.2 prk info okmLen hk hok, hkdf_expand_limit]
 
 theorem hkdf_expand_ok {γ : Type} (M : CtxModel γ) (H : Fn) (B L : Nat) (ok : Bytes → Prop)
     (hC : HkdfCorrect M H B L ok) (prk info : Bytes) (okmLen : Nat) (hk : prk.length ≤ B ∨ ok prk)
     (hok : ∀ x : Bytes, x.length ≤ L + info.length + 1 →
       ok (ikey H B prk ++ x) ∧ ok (okey H B prk ++ H (ikey H B prk ++ x)))
-    (hv : ValidHkdfExpand L okmLen) :
-    ∃ okm, hkdf_expand (legacyDigest M) (Legacy.new M) prk info okmLen = some okm := by
-  cases h : hkdf_expand (legacyDigest M) (Legacy.new M) prk info okmLen with
-  | some v => exact ⟨v, rfl⟩
-  | none => exact absurd hv ((hkdf_expand_none_iff M H B L ok hC prk info okmLen hk hok).mp h)
+    (hv : ValidHkdfExpand L prk.length okmLen) :
+    hkdf_expand (legacyDigest M) (Legacy.new M) prk info okmLen
+      = some (Spec.Kdf.hkdfOkm (Spec.Hmac.hmac H B) L prk info okmLen) := by
+  rw [hC.2 prk info okmLen hk hok, hkdf_expand_value H B L prk info okmLen hv.1 hv.2]
+
+/-- WITNESS of the repaired defect (m) in the terms of the matrix: the call `hkdf_expand(Sha256::new(), &[0x0b], b"info",
+    &mut [0; 33])` is outside the documented domain (a 1-byte PRK, HashLen = 32); the function as it was before
+    `assert!(prk.len() >= digest.output_bytes())` answered it with 33 bytes, the repaired function refuses it -/
+theorem hkdf_expand_old_short_prk :
+    ¬ ValidHkdfExpand 32 ([0x0b] : Bytes).length 33 ∧
+    (∃ okm : Bytes, okm.length = 33 ∧
+      hkdf_expand_old (legacyDigest sha256Ctx) (Legacy.new sha256Ctx)
+        [0x0b] [0x69, 0x6e, 0x66, 0x6f] 33 = some okm) ∧
+    hkdf_expand (legacyDigest sha256Ctx) (Legacy.new sha256Ctx)
+      [0x0b] [0x69, 0x6e, 0x66, 0x6f] 33 = none := by
+  obtain ⟨_, h1, h2, h3, _⟩ := hkdf_expand_old_accepts_short_prk
+  exact ⟨by decide, ⟨_, h2, h1⟩, h3⟩
 
 /-! ### PBKDF2 with HMAC over a legacy wrapper -/
 
